@@ -65,13 +65,24 @@ static void kg_all(size_t n, unsigned char *k, FILE *o, const unsigned char *s, 
         unsigned char kk[64];
         if (t[i].n != n) continue;
         install(s, sl); memset(kk, 0x5c, sizeof kk); t[i].f(kk); restore();
-        if (req_n != 1 || req_log[0] != n || exhausted) fprintf(o, "BAD-REQUESTS(%s) ", t[i].nm);
+        if (exhausted) { return; }
+        if (req_n != 1 || req_log[0] != n) fprintf(o, "BAD-REQUESTS(%s) ", t[i].nm);
         if (!have) { memcpy(first, kk, n); have = 1; } else if (memcmp(first, kk, n)) fprintf(o, "KEYGEN-DIFFERS(%s) ", t[i].nm);
     }
     memcpy(k, first, n);
 }
-static int op_gen(int argc, char **argv, FILE *o) {
-    buf_t s; const char *api;
+static int op_gen_inner(int argc, char **argv, FILE *o);
+static int op_gen(int argc, char **argv, FILE *out) {
+    /* an exhausted script is reported as the single word "exhausted" whatever the API printed */
+    static char line[1 << 20]; FILE *o = fmemopen(line, sizeof line, "w"); int r, ex;
+    r = op_gen_inner(argc, argv, o); fclose(o);
+    ex = exhausted;
+    if (r != 0) return r;
+    fputs(ex ? "exhausted" : line, out);
+    return 0;
+}
+static int op_gen_inner(int argc, char **argv, FILE *o) {
+    buf_t s; const char *api; int any_exhausted = 0;
     if (argc < 2 || hx_hex(argv[1], &s)) return -1;
     api = argv[0];
     if (!strncmp(api, "keygen", 6)) {
@@ -112,13 +123,13 @@ static int op_gen(int argc, char **argv, FILE *o) {
     } else if (!strcmp(api, "scalar_random")) {
         unsigned char r[32], r2[32];
         install(s.p, s.n); crypto_core_ed25519_scalar_random(r); restore();
-        if (exhausted) { fputs("exhausted", o); hx_free(&s); return 0; }
+        if (exhausted) { hx_free(&s); return 0; }
         put_sizes(o);
         install(s.p, s.n); crypto_core_ristretto255_scalar_random(r2); restore();
         if (memcmp(r, r2, 32)) fputs(" RISTRETTO-DIFFERS", o);
         fputc(' ', o); hx_put_hex(o, r, 32);
     } else { hx_free(&s); return -1; }
-    if (exhausted) fputs(" EXHAUSTED", o);
+    (void) any_exhausted;
     hx_free(&s); return 0;
 }
 const hx_op ops_c18[] = { {"rng.uniform", op_uniform}, {"rng.drg", op_drg}, {"rng.drg_guard", op_drg_guard}, {"rng.gen", op_gen}, {NULL, NULL} };
